@@ -34,7 +34,7 @@ def ensure():
     lock = open(os.path.join(OUT, '.lock'), 'w')
     fcntl.flock(lock, fcntl.LOCK_EX)
     try:
-        h = hashlib.sha256(b'recipe-6')
+        h = hashlib.sha256(b'recipe-7')
         for f in sorted(os.listdir(SRC)):
             h.update(f.encode()); h.update(open(os.path.join(SRC, f), 'rb').read())
         stamp = os.path.join(OUT, 'stamp')
@@ -51,6 +51,7 @@ def ensure():
         for v in (0, 1):
             libs['tool_v%d' % v] = os.path.join(OUT, 'tool_v%d' % v)             # a position-independent executable exporting its symbols
             libs['tool_v%d_nodbg' % v] = os.path.join(OUT, 'tool_v%d_nodbg' % v)
+            libs['tool_v%d_exec' % v] = os.path.join(OUT, 'tool_v%d_exec' % v)   # the same, linked as a non-PIE executable (ET_EXEC)
         for v in (0, 1):
             libs['ktree_v%d' % v] = os.path.join(OUT, 'ktree_v%d' % v)           # a directory: fake kernel image plus one module, for abidw --linux-tree
         libs['twice_v0'] = os.path.join(OUT, 'libtwice_v0.so')                 # one source compiled twice with different -D flags
@@ -75,6 +76,7 @@ def ensure():
         for v in (0, 1):
             _sh(['gcc', '-g', '-O0', '-fPIE', '-pie', '-rdynamic', '-DV=%d' % v, os.path.join(SRC, 'tool.c'), '-o', libs['tool_v%d' % v]])
             _sh(['gcc', '-O0', '-fPIE', '-pie', '-rdynamic', '-DV=%d' % v, os.path.join(SRC, 'tool.c'), '-o', libs['tool_v%d_nodbg' % v]])
+            _sh(['gcc', '-g', '-O0', '-fno-pie', '-no-pie', '-rdynamic', '-DV=%d' % v, os.path.join(SRC, 'tool.c'), '-o', libs['tool_v%d_exec' % v]])
         for v in (0, 1):
             os.makedirs(os.path.join(libs['ktree_v%d' % v], 'modules'), exist_ok=True)
             _sh(['gcc', '-g', '-O0', '-nostdlib', '-static', '-fno-pie', '-no-pie', '-DV=%d' % v, os.path.join(SRC, 'fakekernel.c'), '-o', os.path.join(libs['ktree_v%d' % v], 'vmlinux')])
